@@ -372,7 +372,7 @@ class PoolRun:
                 raise Boom("call-%d-%d" % (r, j))
             return me.body(r, j, tpl)
 
-        func.__name__ = func.__qualname__ = "w%d" % r if r >= 0 else "ws"
+        func.__name__ = func.__qualname__ = "w"     # shared on purpose: generated group names must count up
         inspect.markcoroutinefunction(func)
         return func
 
